@@ -21,7 +21,7 @@ PROOF_TARGETS = ["Props/C16.vo"]
 PROPS_FILE = "Props/C16.v"
 PROPS_MODULE = "Props.C16"
 RULE = ("for every concrete list class of the five games (enumerated from the live package): random lists (0..7 rows; duplicate, negative, "
-        "fractional offsets; arbitrary row labels; unsorted) driven through random operation histories (len, [int], [slice], iter, "
+        "fractional offsets; arbitrary row labels; unsorted; a fifth of them late in the chart (5 min .. 1 h) with rows 0.125 .. 2 ms apart) driven through random operation histories (len, [int], [slice], iter, "
         "first/last offset, sorted, append(+sort), after/before/between with every flag combination and the hold head/tail variants, "
         "thresholds drawn from the offsets present so that inclusive flags matter); one case per transition; constructor cases "
         "(from items, from_dict, empty(n), cls([])); non-trivial = the state has >=2 rows; distinct by hash of the canonical JSON")
